@@ -66,6 +66,10 @@ type vkVol struct {
 	UUID string
 	Root string
 	RO   bool
+	// HostOnly: RO is configured for this keepstore host only
+	// (Volumes.*.AccessViaHosts.<host>.ReadOnly), the cluster-wide ReadOnly
+	// flag of the volume stays false
+	HostOnly bool
 }
 
 type vkServer struct {
@@ -95,12 +99,16 @@ func vkNewServer(t testing.TB, cluster *arvados.Cluster, vols []vkVol, startTras
 	cluster.Volumes = map[string]arvados.Volume{}
 	for _, v := range vols {
 		params, _ := json.Marshal(map[string]interface{}{"Root": v.Root})
-		cluster.Volumes[v.UUID] = arvados.Volume{
+		cv := arvados.Volume{
 			Driver:           "Directory",
 			DriverParameters: params,
 			Replication:      1,
-			ReadOnly:         v.RO,
+			ReadOnly:         v.RO && !v.HostOnly,
 		}
+		if v.HostOnly {
+			cv.AccessViaHosts = map[arvados.URL]arvados.VolumeAccess{{Host: "verif.invalid"}: {ReadOnly: v.RO}}
+		}
+		cluster.Volumes[v.UUID] = cv
 	}
 	reg := prometheus.NewRegistry()
 	logger := vkLogger()
